@@ -15,7 +15,7 @@ TRUSTED = ['harness/treegen.py: the tree grammar, the speller (every free choice
            'harness/htmlnorm.py: CommonMark\'s test normalisation',
            'Spec/Spell.v: the Coq twin of the grammar for the kernel sweep (independent of the parser model)',
            'the pipeline model (tied by X-doc on the generated texts); vm_compute for the sweep']
-ASSUMPTIONS = ['unbounded theorem on a fragment: plain paragraphs of one or more lines, ATX headings, fenced code blocks, quotes and single-item lists (all markers, padding 1-4), any size and depth, '
+ASSUMPTIONS = ['unbounded theorem on a fragment: paragraphs of one or more lines (inert delimiters; lines ending in spaces), one-line paragraphs with inline markup (emphasised phrases and links mixed, a code span, strikethrough, escape, image, titled link, nested emphasis), ATX headings, thematic breaks, fenced code blocks, quotes and lists of one or more items (all markers, padding 1-4), any size and depth, '
                'two lists never adjacent siblings: the block tokenizer returns exactly the pre-token tree written from the tree (C03_fragment_parses), and Document(lines) - with the fuel it really gives, proved sufficient - holds exactly the token tree written from the tree under every renderer\'s token sets (C03_fragment_document, _markdown), and the HTML renderer model writes for it exactly the HTML written directly from the tree, also when the text is one string (C03_fragment_html, C03_fragment_markdown_html); the fragment '
                'stream runs the same trees on the implementation',
                'PARTIAL beyond the fragment: in the kernel the HTML statement is bounded to the family stated in C03_bounded_trees; the full grammar is sampled on the implementation',
